@@ -96,6 +96,12 @@ func MakeComplex(a Object) (Object, error) {
 			return nil, err
 		}
 		if res != NotImplemented {
+			// the conversion has to give the type it converts to
+			switch res.(type) {
+			case Complex:
+			default:
+				return nil, ExceptionNewf(TypeError, "__complex__ returned non-complex (type %s)", res.Type().Name)
+			}
 			return res, nil
 		}
 	}
@@ -118,6 +124,12 @@ func MakeInt(a Object) (Object, error) {
 			return nil, err
 		}
 		if res != NotImplemented {
+			// the conversion has to give the type it converts to
+			switch res.(type) {
+			case Int, *BigInt:
+			default:
+				return nil, ExceptionNewf(TypeError, "__int__ returned non-int (type %s)", res.Type().Name)
+			}
 			return res, nil
 		}
 	}
@@ -140,6 +152,12 @@ func MakeFloat(a Object) (Object, error) {
 			return nil, err
 		}
 		if res != NotImplemented {
+			// the conversion has to give the type it converts to
+			switch res.(type) {
+			case Float:
+			default:
+				return nil, ExceptionNewf(TypeError, "__float__ returned non-float (type %s)", res.Type().Name)
+			}
 			return res, nil
 		}
 	}
